@@ -151,6 +151,12 @@ def _after_sync_probe(rt, fr, ok):
     t = S.get_active_task()
     mine = rt.task_of_frame.get(id(fr))
     rt.emit("active_task_after_sync_call_is_me", fr.path, mine is not None and t is mine)
+    if rt.prog.get("harvest_inside"):
+        # the task collects the profiler's entries of the synchronous sub-computation it has just made, before its own
+        # step ends (what is returned is only counted)
+        from asynq import profiler
+
+        rt.n_harvested = getattr(rt, "n_harvested", 0) + len(profiler.flush())
 
 
 def wide_program(rnd):
@@ -377,6 +383,9 @@ def run_unit(unit, progress):
         if i % 5 == 1:
             prog["percent_args"] = True
             inc("programs_whose_task_arguments_print_with_per_cent_signs")
+        if i % 3 == 2:
+            prog["harvest_inside"] = True
+            inc("programs_whose_tasks_flush_the_profiler_after_their_synchronous_calls")
         if i % 12 == 2:
             prog["evil"] = [rnd.choice(["switch", "override", "preflush"]), rnd.randrange(2)]
             inc("programs_in_which_the_schedulers_flush_call_raises")
